@@ -79,7 +79,7 @@ Section P.
       + specialize (Hone p eq_refl). destruct (put_one s c d p) as [s' [| | | | |]]; exact Hone.
       + unfold stored_now. cbn [fst]. rewrite Ep, app_nil_r. reflexivity.
     - unfold st_put. cbn [fst snd]. destruct (cid_parse c) as [p|] eqn:Ep.
-      + rewrite (inv_closed _ _ _ _ _ _ HI). apply Hone. reflexivity.
+      + rewrite (inv_closed _ _ _ _ _ _ HI), (inv_fin _ _ _ _ _ _ HI). apply Hone. reflexivity.
       + unfold stored_now. cbn [fst]. rewrite Ep, app_nil_r. reflexivity.
   Qed.
 
